@@ -429,7 +429,7 @@ namespace {
 
   // budget of hang detections spent in shrinking (each costs the time limit)
   int hangsSeen = 0;
-  int failuresSeen = 0, shrinkExecutions = 0;
+  std::map<std::string, int> failuresSeen, shrinkExecutions;
 
   void executeOnce(verif::Case& c, const Script& s, const int ntasks);
 
@@ -445,7 +445,7 @@ namespace {
       executeOnce(c, s, ntasks);
       return;
     }
-    if (failuresSeen != 0 && (++shrinkExecutions > 60 || hangsSeen >= 12)) {
+    if (failuresSeen[c.sub()] != 0 && (++shrinkExecutions[c.sub()] > 60 || hangsSeen >= 12)) {
       // bounded shrinking (every execution forks and may wait for the time
       // limit): the last recorded failing script is kept
       return;
@@ -457,7 +457,7 @@ namespace {
         return;
       } catch (const verif::Failure&) {
         if (attempt == 3) {
-          ++failuresSeen;
+          ++failuresSeen[c.sub()];
           throw;
         }
       }
@@ -465,13 +465,15 @@ namespace {
   }
 
   void executeOnce(verif::Case& c, const Script& s, const int ntasks) {
-    const double limit = s.load ? 90. : 10.;
+    // time budget (inconclusive when hit, never a verdict); a dead-lock is
+    // recognised from the state of the threads, not from the clock
+    const double limit = s.load ? 300. : 60.;
     const auto o = verif::runForked(
         [&s](const int fd) {
           Runner r;
           r.run(s, fd);
         },
-        limit);
+        limit, true);
     const auto tail = [&o] {
       std::string t = o.text.size() > 600 ? o.text.substr(o.text.size() - 600) : o.text;
       for (auto& ch : t)
@@ -482,9 +484,13 @@ namespace {
       c.discard();
     }
     if (o.how == verif::ForkOutcome::TIMEOUT) {
+      c.tag("time_budget_hit_inconclusive");
+      c.discard();
+    }
+    if (o.how == verif::ForkOutcome::DEADLOCK) {
       ++hangsSeen;
-      c.check(false, "C29.liveness.hang",
-              "script did not finish within " + std::to_string(static_cast<int>(limit)) + " s; progress: " + tail());
+      c.check(false, "C29.liveness.deadlock",
+              "every thread sleeps for ever in a futex wait (4 identical samples); progress: " + tail());
     }
     if (o.how == verif::ForkOutcome::SIGNALED) {
       c.check(false, "C29.crash", "child killed by signal " + std::to_string(o.code) + "; progress: " + tail());
